@@ -112,6 +112,10 @@ def render(cfg, dev):
         # routes the tool has to ignore
         out.append("ip route add 10.0.0.0/24 dev eth0 proto kernel scope link src 10.0.0.5")
         out.append("ip route add 169.254.0.0/16 dev eth0 scope link metric 1000")
+        # routes installed by a routing daemon / at boot: not static routes, although destination and next hop
+        # are ones the universe uses
+        out.append("ip route add 10.1.0.0/24 via 10.0.0.2 dev eth0 proto 186")
+        out.append("ip route add 10.1.1.1 via 10.0.0.2 dev eth0 proto boot")
     out += render_tables(cfg["tables"], dev)
     return "\n".join(out) + "\n"
 
